@@ -216,3 +216,20 @@ Proof.
     eapply env_ext_trans; [eapply core_rule_env; exact CR | eapply IH; exact H]. }
   exact (G _ _ _ CP).
 Qed.
+
+(* ---- the hypotheses are satisfiable, and the conclusions say something: a concrete run ---- *)
+
+From MD Require Import Lemmas.PipelineSafe.
+
+(* "[a](/u?x=é) ![i][r] <http://h.x/p>\n\n[r]: /img.png 't'\n\n[r]: /dup\n" : an inline link, an image through a reference, an
+   autolink, a definition and a duplicate of it *)
+Definition ex_src2 : str :=
+  [91; 97; 93; 40; 47; 117; 63; 120; 61; 233; 41; 32; 33; 91; 105; 93; 91; 114; 93; 32; 60; 104; 116; 116; 112; 58; 47; 47; 104; 46; 120; 47; 112; 62; 10; 10; 91; 114; 93; 58; 32; 47; 105; 109; 103; 46; 112; 110; 103; 32; 39; 116; 39; 10; 10; 91; 114; 93; 58; 32; 47; 100; 117; 112; 10].
+
+Example urls_theorem_applies :
+  env_good (fun s => s) env0
+  /\ exists ts e, parse ex_cfg (fun s => s) (fun s => s) (fun s => s) ex_src2 env0 = Ok (ts, e)
+                  /\ env_refs e <> [] /\ env_dups e <> [] /\ 3 <= len ts.
+Proof.
+  split; [constructor|]. eexists. eexists. split; [vm_compute; reflexivity|]. split; [vm_compute; intros X; discriminate X|]. split; [vm_compute; intros X; discriminate X | vm_compute; intros X; discriminate X].
+Qed.
